@@ -41,7 +41,8 @@ def cpython_view(tmp, k):
                 if n.startswith("__") and n != "__all__":
                     continue
                 if n == "__all__":
-                    names[n] = ("all", tuple(v))
+                    # what __all__ exposes is a set of names: order and repetitions change nothing for `from m import *`
+                    names[n] = ("all", tuple(sorted(set(v))))
                 elif isinstance(v, str):
                     names[n] = ("obj", v)
                 elif isinstance(v, type):
@@ -76,7 +77,7 @@ def griffe_view(tmp, k):
             except Exception as e:  # noqa: BLE001
                 names[n] = ("unresolved", type(e).__name__)
         if mod.exports is not None:
-            names["__all__"] = ("all", tuple(str(e) for e in mod.exports))
+            names["__all__"] = ("all", tuple(sorted({str(e) for e in mod.exports})))
         view[mod.path] = names
     return view
 
@@ -150,6 +151,12 @@ def sweep(seed=0, n_random=300, budget_s=120, stop_after=5):
         a, m, z, w = (f"m{i}" for i in perm)
         srcs = {a: f"from .{m} import x\nfrom .{w} import *", m: f"from .{z} import x", z: f"x = 'pkg.{z}.x'\nfrom .{w} import *", w: f"x = 'pkg.{w}.x'\ny = 'pkg.{w}.y'"}
         graphs.insert(0, tuple(srcs[f"m{i}"] for i in range(4)))
+    # __all__ assembled with augmented assignments from other modules' __all__ (attribute form), incl. the same reference twice and strings already there
+    d0, d1 = "x = 'pkg.m0.x'\ny = 'pkg.m0.y'\n__all__ = ['x']", "y = 'pkg.m1.y'\nclass K:\n    origin = 'pkg.m1.K'\n__all__ = ['y', 'K']"
+    imp = "from pkg import m0, m1\nfrom pkg.m0 import *\nfrom pkg.m1 import *\n"
+    for body in ("__all__ = m0.__all__\n__all__ += m1.__all__", "__all__ = []\n__all__ += m0.__all__\n__all__ += m1.__all__", "__all__ = ['x']\n__all__ += m0.__all__ + m1.__all__",
+                 "__all__ = m0.__all__ + ['K']\n__all__ += m1.__all__\n__all__ += ['x']", "__all__ = m1.__all__\n__all__ += m1.__all__\n__all__ += m0.__all__"):
+        graphs.insert(0, (d0, d1, imp + body, "from pkg.m2 import *"))
     # 4 modules, imports in any direction (load order differs from dependency order); cycles are rejected by CPython
     st4 = [statements(i, [j for j in range(4) if j != i]) for i in range(4)]
     for _ in range(n_random):
